@@ -209,6 +209,47 @@ RESULTS = {
  "C19-5B": ("C19", "C19/clienthello-split-read", "quick", True, ""),
  "C20-5A": ("C20", "C20/expansion/uri", "quick", True, ""),
  "C20-5B": ("C20", "C20/line-missing, C20/line-unexpected/excepted", "quick", False, "sites with two internal rewrites, into and out of a location that except lists name"),
+ # ---- round 6
+ "C01-6A": ("C01", "C01/misrouted/designated-fallback", "quick", False, "designated fallback sites (SiteConfig.FallbackSite) on five listeners built in one process, three build orders"),
+ "C01-6B": ("C01", "C01/misrouted/want-none-via-exact/got-exact-host/non-prefix", "quick", True, ""),
+ "C02-6A": ("C02", "C02/archive-includes-hidden, C02/listing-names-hidden", "quick", False, "third fixture variant whose sites declare an internal directory and an internal file"),
+ "C02-6B": ("C02", "C02/hidden-file-served, C02/archive-includes-hidden", "quick", False, "same variant (the Casketfile of a site that also uses `internal`)"),
+ "C03-6A": ("C03", "C03/index-of-file-scoped-rule", "quick", True, ""),
+ "C03-6B": ("C03", "C03/disclosed/basicauth/concurrent-markdown", "quick", False, "anonymous requests for a public Markdown document overlapping authenticated ones for a protected document"),
+ "C04-6A": ("C04", "C04/req-body", "quick", False, "upstream block whose backend drops the first attempt on a reused kept-alive connection; requests a client library may replay on its own (idempotent methods, idempotency keys) with chunked bodies"),
+ "C04-6B": ("C04", "C04/resp-hop-by-hop-forwarded/connection-named", "quick", True, ""),
+ "C05-6A": ("C05", "C05/e2e-not-answered-by-healthy/*", "quick", True, ""),
+ "C05-6B": ("C14", "C14/client-cancel-counted-as-failure (C14, at arrival); not caught by C05", "quick", True, ""),
+ "C06-6A": ("C06", "C06/clientauth-site-served-under-other-sni/*", "quick", True, ""),
+ "C06-6B": ("C06", "C06/cipher-not-in-site-list", "quick", False, "a third of the sites write their tls settings over two tls lines"),
+ "C07-6A": ("C07", "C07/history-not-linearizable", "quick", False, "the first three reloads of plain histories have to wait for a 2.6 s health probe of the old instance"),
+ "C07-6B": ("C07", "C07/request-failed-during-reload", "quick", True, ""),
+ "C08-6A": ("C08", "C08/signal-handler-gone-after-failed-load", "quick", False, "a reload by signal that never takes effect is a violation when the goroutine dump shows that the signal-handling goroutine no longer exists (was: inconclusive)"),
+ "C08-6B": ("C08", "C08/event-hooks-left-by-failed-load/validate", "quick", True, ""),
+ "C09-6A": ("C09", "C09/precedence/rewrite-before-internal", "quick", False, "precedence fact: a request rewritten into an internal location"),
+ "C09-6B": ("C09", "C09/precedence/header-around/errors", "quick", False, "precedence fact: every field the header directive sets (Cache-Control) is on configured error pages"),
+ "C10-6A": ("C10", "C10/roundtrip/inline", "quick", False, "quoted tokens containing CRLF and a lone CR"),
+ "C10-6B": ("C10", "C10/roundtrip/inline", "quick", False, "a block whose only key is empty (unset variable, \"\") in front of another block; such blocks themselves are not compared"),
+ "C11-6A": ("C11", "C11/panic/proxy-tls_client-*", "quick", False, "peer heads under every URL scheme (https, quic, srv, srv+https, unix) with certificate-loading sub-directives"),
+ "C11-6B": ("C11", "C11/panic-start/root/caskethttp/httpserver.hideCasketfile", "quick", False, "the configuration file's own name as an argument, always part of the validate-against-start comparison"),
+ "C12-6A": ("C12, C18", "C12/concurrent/undecodable-body (C12 after strengthening); race/bufio.(*Writer).Reset | gzip.(*gzipResponseWriter).Close (C18, at arrival)", "quick", False, "C12: slow (trickling) readers of incompressible gzip responses while peers come and go"),
+ "C12-6B": ("C12", "C12/written/body-changed/written", "quick", True, ""),
+ "C13-6A": ("C13", "C13/params-http-header", "quick", True, ""),
+ "C13-6B": ("C13", "C13/stderr-not-logged", "quick", True, ""),
+ "C14-6A": ("C14, C05", "C14/healthy-busy-backend-treated-as-down (C14 after strengthening); C05/no-host-although-one-available/least_conn (C05, at arrival)", "quick", False, "C14: host 0 down, host 1 healthy and busy with one request, a second request under six policies"),
+ "C14-6B": ("C14", "C14/conns-mismatch/upgraded", "quick", False, "upgraded (websocket) sessions ended by the client, through a real front socket"),
+ "C15-6A": ("C15", "C15/non-qualifying-site-managed/real-start", "quick", False, "real start (child process) of a public name bound to a loopback address; the configured CA endpoint is a listener of the harness that counts contacts"),
+ "C15-6B": ("C15", "C15/redirect-site-not-permanent-redirect", "quick", True, ""),
+ "C16-6A": ("C16", "C16/wait-returned-early", "quick", False, "a quarter of the histories end with a reload to a configuration without servers while graceful stops take longer than their serve loops"),
+ "C16-6B": ("C16", "C16/process-shutdown-callbacks-not-exactly-once", "quick", False, "signal scenario with two shutdown callbacks of which the first reports an error"),
+ "C17-6A": ("C17", "C17/proxy-passed-beyond-limit, C17/body-limit-not-enforced", "quick", False, "limit tables whose scopes are written in another letter case than the requests"),
+ "C17-6B": ("C17", "C17/listener-setting-not-strictest/header_limit/quic", "quick", False, "TLS listener groups with QUIC switched on; the QUIC side's limit is read through a new verif-tagged hook"),
+ "C18-6A": ("C18", "C18/broken-response", "quick", True, ""),
+ "C18-6B": ("C18", "C18/gzip-q0", "quick", False, "Accept-Encoding values with a wildcard beside gzip;q=0"),
+ "C19-6A": ("C19", "C19/hello-heuristic-panic/looksLikeTor", "quick", True, ""),
+ "C19-6B": ("C19", "C19/crash/caskethttp/httpserver.NewServer.func1", "quick", True, ""),
+ "C20-6A": ("C20", "C20/size-mismatch", "quick", True, ""),
+ "C20-6B": ("C20", "C20/line-missing/stderr-log", "quick", False, "an instance in a process of its own whose access log (and bare errors log) go to standard error, reloaded twice; a monitor process that dies after reporting violations no longer turns the run into a broken one"),
 }
 
 VERIFY = {}
